@@ -32,6 +32,10 @@ RULE = ('worlds = random settings of nesting maximum, reply.maximumLength, error
         'plugin and command names; (canon) canonicalName. non-trivial = the model took a non-default branch (sub-command, stop kind, pop, dispatch rule).')
 
 SYN = ('VtOrderA', 'VtOrderB', 'VtOrderC')
+FILE_DEFAULTS = (('rone', 'VtOrderA'), ('both', 'VtOrderB'), ('nrep', 'VtOrderC'), ('igno', 'VtOrderB'))
+SAVE_LOAD = '<registry written to its file and read back>'
+EVAL_MARK = '<evaluate> '
+GETCB_MARK = '<irc.getCallback> '
 ERR_NEST = "You've attempted more nesting than is currently allowed on this bot."
 
 # --------------------------------------------------------------------------------------------
@@ -39,7 +43,9 @@ ERR_NEST = "You've attempted more nesting than is currently allowed on this bot.
 # --------------------------------------------------------------------------------------------
 class Live(object):
     def __init__(self):
-        b = bot.full(plugin_dirs=[os.path.join(VERIF, 'harness', 'plugins')])
+        # default plugins that come from the configuration FILE read at start-up (they sit in registry._cache)
+        b = bot.full(plugin_dirs=[os.path.join(VERIF, 'harness', 'plugins')],
+                     extra_registry=''.join('supybot.commands.defaultPlugins.%s: %s\n' % kv for kv in FILE_DEFAULTS))
         for n in SYN:
             if n not in b.loaded:
                 bot.load_plugin(b, n)
@@ -71,8 +77,66 @@ class Live(object):
             self.cb.Commands.callCommand = wrapped
         self.error_text = b.conf.supybot.replies.error()
         dp = b.conf.supybot.commands.defaultPlugins
-        self.base_defaults = {n: c() for n, c in dp._children.items() if n != 'importantPlugins'}
+        self.base_defaults = {n: c() for n, c in dp._children.items() if n != 'importantPlugins' and n not in dict(FILE_DEFAULTS)}
+        # a second network: its own Irc object, the same (shared) list of plugins
+        b.conf.registerNetwork('vtnetb')
+        self.irc_b = b.irclib.Irc('vtnetb')
+        assert self.irc_b.callbacks is b.irc.callbacks
+        self.irc_b.feedMsg(b.ircmsgs.IrcMsg(':server 001 %s :Welcome' % b.nick))
+        self.drain(self.irc_b)
         self.records = self.introspect()
+
+    def plugin(self, name):
+        """the loaded plugin of that name, looked up in the shared list itself (the harness's own bookkeeping does not
+        go through Irc.getCallback, which is part of what is checked)"""
+        for cb in self.b.irc.callbacks:
+            if cb.name().lower() == name.lower():
+                return cb
+        return None
+
+    def net(self, n):
+        return self.irc_b if n == 'B' else self.b.irc
+
+    @staticmethod
+    def drain(irc, limit=1000):
+        out = []
+        for _ in range(limit):
+            m = irc.takeMsg()
+            if m is None:
+                break
+            out.append(m)
+        return out
+
+    def refresh(self):
+        """after load / unload / reload: the plugin objects are new ones"""
+        self._mcache.clear()
+        order = getattr(self, 'cur_order', None)
+        by = {cb.name(): cb for cb in self.b.irc.callbacks}
+        if order and set(by) == set(order):
+            self.b.irc.callbacks[:] = [by[n] for n in order]      # the world's order again (addCallback's is arbitrary)
+        self.records = self.introspect()
+
+    def save_load(self):
+        """the registry half of a restart (and of `config reload`): write the configuration file, read it back"""
+        fn = os.path.join(self.b.dir, 'conf', 'vt_c14_roundtrip.conf')
+        self.b.registry.close(self.conf.supybot, fn)
+        self.b.registry.open_registry(fn)
+
+    def relive(self, h):
+        """one history entry [text, answer(, network)] again; -> answer now"""
+        text = h[0]; net = h[2] if len(h) > 2 else 'A'
+        if text == SAVE_LOAD:
+            self.save_load(); return 'ok'
+        if text.startswith(GETCB_MARK):
+            Q = text[len(GETCB_MARK):]
+            return 'loaded' if self.net(net).getCallback(Q) is self.plugin(Q) else 'NOT the loaded plugin'
+        if text.startswith(EVAL_MARK):
+            res = self.run(json.loads(text[len(EVAL_MARK):]), net=net)
+            return canon_result(res)
+        rep = self.owner_cmd(text, net=net)
+        if text.split()[0] in ('load', 'unload', 'reload'):
+            self.refresh()
+        return rep
 
     # ---- plugin table for the model ----
     def methods_cached(self, cb):
@@ -125,6 +189,7 @@ class Live(object):
 
     # ---- configuration ("world") ----
     def set_world(self, w):
+        self.cur_order = w.get('order')
         if w.get('order'):
             by = {cb.name(): cb for cb in self.b.irc.callbacks}
             if set(by) == set(w['order']):
@@ -174,13 +239,13 @@ class Live(object):
         return L
 
     # ---- running one tree ----
-    def run(self, tokens, private=False, ignored0=False, unthreaded=False):
+    def run(self, tokens, private=False, ignored0=False, unthreaded=False, net='A'):
         """unthreaded: VtOrderC runs its commands on the caller's thread.  Used for trees with bodies that use irc
         several times: next to a thread hand-off two real threads evaluate the same enclosing proxies at once, each
         holding the per-plugin locks (Commands.__synchronized__) of the bodies it is inside while asking for the next
         one - seen to deadlock the bot (main thread included) for good; the machine model covers these schedules."""
         b = self.b
-        cbc = b.irc.getCallback('VtOrderC')
+        cbc = self.plugin('VtOrderC')
         if unthreaded and cbc is not None:
             cbc.threaded = False
         b.world.vt_c14_calls = calls = []
@@ -190,7 +255,7 @@ class Live(object):
             msg.tag('ignored')
         crash = None
         try:
-            self.cb.NestedCommandsIrcProxy(b.irc, msg, tokens)
+            self.cb.NestedCommandsIrcProxy(self.net(net), msg, tokens)
         except Exception as e:
             crash = type(e).__name__
         finally:
@@ -203,7 +268,7 @@ class Live(object):
                 break
             for t in ts:
                 t.join(0.5)
-        out = bot.drain(b)
+        out = self.drain(self.net(net))
         b.world.vt_c14_calls = None
         body_calls = list(b.world.vt_c14_log)
         return dict(msgs=[(m.command, m.args[0], m.args[1]) for m in out if m.command in ('PRIVMSG', 'NOTICE')],
@@ -241,13 +306,13 @@ class Live(object):
             return v[0], sorted(v[1])
         return False, sorted(v)
 
-    def owner_cmd(self, text):
+    def owner_cmd(self, text, net='A'):
         """run a real Owner command as the owner; -> 'ok' | 'err' | other reply text"""
         b = self.b
         b.world.vt_c14_calls = None
         msg = b.ircmsgs.privmsg('#vt', '@' + text, prefix='own!er@vt.host')
-        b.irc.feedMsg(msg)
-        out = [m.args[1] for m in bot.drain(b) if m.command in ('PRIVMSG', 'NOTICE')]
+        self.net(net).feedMsg(msg)
+        out = [m.args[1] for m in self.drain(self.net(net)) if m.command in ('PRIVMSG', 'NOTICE')]
         if out == [self.success_text]:
             return 'ok'
         if len(out) == 1 and out[0].startswith('Error: '):
@@ -597,7 +662,7 @@ def ambiguous_expected(live, c):
     dp = live.conf.supybot.commands.defaultPlugins
     if c in dp._children:
         v = dp._children[c]()
-        if v and live.b.irc.getCallback(v) in cands:
+        if v and live.plugin(v) in cands:
             return False
     imp = [cn(x) for x in dp.importantPlugins()]
     if len([P for P in cands if P.canonicalName() in imp]) == 1:
@@ -731,8 +796,8 @@ def explore(live, r, n_worlds, per_world, corpus=()):
         for l in live.world_lines(w):
             lines.append(l); pend.append((None, None))
         winfo = dict(w)
-        def add_eval(tokens, kind, check_full=False, ignored0=False, machine_only=False):
-            res = live.run(tokens, private=False, ignored0=ignored0, unthreaded=machine_only)
+        def add_eval(tokens, kind, check_full=False, ignored0=False, machine_only=False, net='A', history=None):
+            res = live.run(tokens, private=False, ignored0=ignored0, unthreaded=machine_only, net=net)
             if ignored0:
                 lines.append(live.cfg_line(w, True)); pend.append((None, None))
             ok, msg = oracle_order(tokens, res, w)
@@ -747,7 +812,8 @@ def explore(live, r, n_worlds, per_world, corpus=()):
             if any(isinstance(x, list) for x in tokens): tags.append('nested')
             if res['calls'] and any(c[0] == 'VtOrderC' for c in res['calls']): tags.append('threaded')
             fnd = FINDING_EXTRA if (not ok and in_extra_reply_class(res)) else None
-            c = Case(dict(op='eval', tokens=tokens, world=winfo, _calls=[list(x) for x in res['calls']] if kind in ('dseq', 'dpseq') else None), impl=impl, oracle_ok=ok,
+            c = Case(dict(op='eval', tokens=tokens, world=winfo, _calls=[list(x) for x in res['calls']] if kind in ('dseq', 'dpseq') else None,
+                          **(dict(net=net, history=[list(h) for h in history]) if history is not None else {})), impl=impl, oracle_ok=ok,
                      oracle_msg=('' if ok else 'tokens %r under %r: %s' % (tokens, winfo, msg)), kind=kind, tags=tags, finding=fnd)
             def post(o, c=c):
                 f = o.split('\t@\t')
@@ -856,7 +922,7 @@ def explore(live, r, n_worlds, per_world, corpus=()):
                 history.append([text, rep.split(':')[0]])
                 impl = rep + ' ' + canon_store(*live.store_dump())
                 if P is not None:
-                    cbP = live.b.irc.getCallback(P)
+                    cbP = live.plugin(P)
                     idx = live.top.index(cbP)
                 if verb == 'disable':
                     line = 'odisable\t%s\t%s' % ('~' if P is None else idx, wire.enc(c))
@@ -906,12 +972,21 @@ def explore(live, r, n_worlds, per_world, corpus=()):
             chosen = {}            # statement level: command -> plugin the owner last (successfully) made the default
             hist = []
             cmds = ['rone', 'both', 'nrep', 'igno', 'erro', 'rdis', 'r-one', 'xval', 'jtag', 'sile', 'nosuch', 'rbee']
-            for _ in range(per_world['dpseq']):
-                c0 = r.choice(cmds); c = cn(c0)
-                x = r.random()
-                if x < 0.2:
+            # a few commands per world, so that remove / set again / change meet on the same command; now and then the
+            # registry goes through its file (what a restart and `config reload` do): the defaults then come from the FILE
+            cmds = r.sample(cmds, 3)
+            removed = None
+            for step in range(per_world['dpseq']):
+                if step == 0 or r.random() < 0.12:
+                    live.save_load(); hist.append([SAVE_LOAD, 'ok'])
+                if removed is not None and r.random() < 0.6:
+                    c0 = removed; x = 1.0       # the owner chooses again for the command whose default was just removed
+                else:
+                    c0 = r.choice(cmds); x = r.random()
+                c = cn(c0); removed = None
+                if x < 0.25:
                     text = 'defaultplugin --remove %s' % c0; rm = True; P = None
-                elif x < 0.3:
+                elif x < 0.33:
                     text = 'defaultplugin %s' % c0; rm = False; P = None
                 else:
                     P = r.choice(['VtOrderA', 'VtOrderB', 'VtOrderC', 'vtorderb', 'Misc']); rm = False
@@ -920,10 +995,10 @@ def explore(live, r, n_worlds, per_world, corpus=()):
                 kind = rep if rep in ('ok', 'err') else 'val'
                 hist.append([text, kind])
                 impl = '%s # %s' % (('val:' + rep[6:]) if kind == 'val' else kind, ','.join('%s=%s' % e for e in live.defaults_dump()))
-                idx = '~' if P is None else live.top.index(live.b.irc.getCallback(P))
+                idx = '~' if P is None else live.top.index(live.plugin(P))
                 if kind == 'ok':
-                    if rm: chosen.pop(c, None)
-                    elif P is not None: chosen[c] = live.b.irc.getCallback(P).name()
+                    if rm: chosen.pop(c, None); removed = c0
+                    elif P is not None: chosen[c] = live.plugin(P).name()
                 def dpost(o):
                     f = o.split('\t')
                     if len(f) != 2: return o
@@ -940,18 +1015,57 @@ def explore(live, r, n_worlds, per_world, corpus=()):
                     'find\t' + wire.enc_list([c]))
                 g = TreeGen(r)
                 tokens = g.node(0, lambda: [c])
-                add_eval(tokens, 'dpseq')
-                cse = cases[-2] if cases[-1].kind.endswith('-m') else cases[-1]
-                want = chosen.get(c)
-                if cse.oracle_ok and want is not None:
-                    cbw = live.b.irc.getCallback(want)
-                    still = c in live.methods_cached(cbw) and not live.cb.Commands._disabled.disabled(c, cbw.name())
-                    ran = [pl for (pl, cmdw, a) in (cse.input.get('_calls') or []) if cmdw == [c]]
-                    if still and ran != [want]:
-                        cse.oracle_ok = False
-                        cse.input['history'] = [list(h) for h in hist]
-                        cse.oracle_msg = 'after the owner commands %r the default plugin of %r is %s, but the bare command ran in %r' % (hist, c, want, ran)
-                cse.input.pop('_calls', None)
+                for tk in (tokens, ['vtordera', 'rtwo', '#1', [c, '#2', 'y']]):      # at top level and nested
+                    add_eval(tk, 'dpseq', history=hist)
+                    cse = cases[-2] if cases[-1].kind.endswith('-m') else cases[-1]
+                    want = chosen.get(c)
+                    if cse.oracle_ok and want is not None:
+                        cbw = live.plugin(want)
+                        still = c in live.methods_cached(cbw) and not live.cb.Commands._disabled.disabled(c, cbw.name())
+                        ran = [pl for (pl, cmdw, a) in (cse.input.get('_calls') or []) if cmdw == [c]]
+                        if still and ran != [want]:
+                            cse.oracle_ok = False
+                            cse.oracle_msg = 'after the owner commands %r the default plugin of %r is %s, but the bare command ran in %r' % (hist, c, want, ran)
+                    cse.input.pop('_calls', None)
+        if per_world.get('nets', 0):
+            # two networks = two Irc objects over ONE list of plugins: bare and nested names evaluated on either, the real
+            # `defaultplugin`, `reload`, `unload` + `load` given on either; the model knows no networks: the same line means
+            # the same on both, whatever was done through the other one before
+            hist = []
+            cmdsn = r.sample(['rone', 'both', 'nrep', 'igno', 'rtwo', 'rbee', 'rcee', 'erro', 'rdis', 'xval', 'nosuch', 'jtag'], 3)
+            def resync():
+                live.refresh()
+                for l in live.world_lines(w):
+                    lines.append(l); pend.append((None, None))
+            def probe():
+                # Irc.getCallback(name) on either network is the loaded plugin of that name (dispatch resolves default plugins with it)
+                for nn in 'AB':
+                    for Q in SYN:
+                        got = live.net(nn).getCallback(Q); ok = got is live.plugin(Q)
+                        cases.append(Case(dict(op='getcallback', net=nn, name=Q, history=[list(h) for h in hist], world=winfo), oracle_ok=ok, kind='nets',
+                                          oracle_msg='' if ok else 'after %r, getCallback(%r) on network %s gives an object that is not the loaded plugin (%r, in the list: %r)' % (
+                                              hist, Q, nn, got, live.plugin(Q)), tags=('nets', 'getcallback')))
+                        hist.append([GETCB_MARK + Q, 'loaded' if ok else 'NOT the loaded plugin', nn])
+            probe()
+            for _ in range(per_world['nets']):
+                x = r.random(); net = r.choice('AB')
+                if x < 0.18:
+                    text = 'defaultplugin %s %s' % (r.choice(cmdsn), r.choice(SYN))
+                    hist.append([text, live.owner_cmd(text, net=net), net]); resync()
+                elif x < 0.42:
+                    P = r.choice(SYN)
+                    for text in (['reload ' + P] if r.random() < 0.7 else ['unload ' + P, 'load ' + P]):
+                        rep = live.owner_cmd(text, net=net)
+                        hist.append([text, rep, net])
+                        if rep != 'ok':
+                            raise RuntimeError('%r answered %r' % (text, rep))
+                    resync()
+                    probe()
+                else:
+                    c = r.choice(cmdsn)
+                    tokens = [c, '#1'] if r.random() < 0.6 else ['vtordera', 'rtwo', '#1', [c, '#2', 'y'], [r.choice(cmdsn), '#3']]
+                    add_eval(tokens, 'nets', net=net, history=hist)
+                    hist.append([EVAL_MARK + json.dumps(tokens), cases[-2].impl if cases[-1].kind.endswith('-m') else cases[-1].impl, net])
         if per_world.get('dseq', 0):
             # what a restart would do: rebuild the store from supybot.commands.disabled; the live store must say the same
             before = live.store_dump()
@@ -1064,7 +1178,7 @@ def load_corpus():
     except OSError:
         return []
 
-QUICK = dict(full=30, mixed=60, multi=40, deep=10, feed=12, ign=6, disp=80, canon=10, dseq=8, dpseq=6)
+QUICK = dict(full=30, mixed=60, multi=40, deep=10, feed=12, ign=6, disp=80, canon=10, dseq=8, dpseq=7, nets=9)
 
 def run(ctx):
     build = leanbuild.ensure(PROPERTY, THEOREMS, thorough=ctx.thorough, extractors=['CanonicalName'])
@@ -1113,13 +1227,21 @@ def replay(ctx, path):
     if 'world' in i:
         live.set_world(i['world'])
     if i.get('op') == 'eval':
-        for (text, rep) in i.get('history', []):
-            print('owner command %r -> %s (was %s)' % (text, live.owner_cmd(text), rep))
-        res = live.run(i['tokens'])
+        for h in i.get('history', []):
+            print('%s: %r -> %s (was %s)' % (h[2] if len(h) > 2 else 'A', h[0], live.relive(h), h[1]))
+        res = live.run(i['tokens'], net=i.get('net', 'A'))
         print('implementation now: %s\n calls: %s' % (canon_result(res), canon_calls(res['calls'])))
         print('order oracle:', oracle_order(i['tokens'], res, i['world']))
+        print('default / important plugins oracle:', oracle_resolvable(live, res))
     elif i.get('op') == 'find':
+        for h in i.get('history', []):
+            print('%s: %r -> %s (was %s)' % (h[2] if len(h) > 2 else 'A', h[0], live.relive(h), h[1]))
         print('implementation now:', live.find(i['args'])[0])
+    elif i.get('op') == 'getcallback':
+        for h in i.get('history', []):
+            print('%s: %r -> %s (was %s)' % (h[2] if len(h) > 2 else 'A', h[0], live.relive(h), h[1]))
+        got = live.net(i['net']).getCallback(i['name'])
+        print('implementation now: getCallback(%r) on %s is the loaded plugin: %s' % (i['name'], i['net'], got is live.plugin(i['name'])))
     elif i.get('op') == 'getcmd':
         idx = [cb.name() for cb in live.top].index(i['plugin'])
         print('implementation now:', live.getcmd(idx, i['args']))
